@@ -433,6 +433,10 @@ class SpecLib:
         return None
 
     def contains(self, ex, container, item):
+        if isinstance(container, (VObj, VRef)) and not (isinstance(container, VObj) and container.cls in REC_CLASSES):
+            mod = ex.world.module_of_class(container.cls)
+            if mod is not None and mod.mro_lookup(container.cls, "__contains__"):
+                return ex.truth(ex.call(ex.getattr(container, "__contains__"), [item], {}))
         if isinstance(container, VTuple):
             return z3.Or(*[ex.eq(item, x) for x in container.items]) if container.items else z3.BoolVal(False)
         c = self.seqval(container)
@@ -915,6 +919,8 @@ class SpecLib:
                 return VInt(s.length())
             if isinstance(v, VBox):
                 return VInt(self.container_len(ex, v))
+            if isinstance(v, (VObj, VRef)):
+                return ex.call(ex.getattr(v, "__len__"), [], {})      # user class: len(x) is x.__len__()
             raise Unsupported("len(%r)" % (v,))
         B_["len"] = b_len
 
